@@ -174,6 +174,35 @@ func (e *Env) spellCorpus(label string, sizes []int, perSizeAll bool, withNearMi
 						gu.variants = append(gu.variants, spellVariant{s: mk(f, seps[r.Intn(2)]), form: f})
 					}
 					emit(gu)
+					// a separator too many (trailing, leading, doubled, two trailing), the extra
+					// one typed as U+0020 in the base and as another space-like code point in
+					// the variants
+					shape := (sentenceNo / 4) % 4
+					dpos := 1 + r.Intn(len(idx)-1)
+					defect := func(f, sep, extra string) string {
+						w := make([]string, len(idx))
+						for i, v := range idx {
+							w[i] = t.form[lang][f][v]
+						}
+						switch shape {
+						case 0:
+							return strings.Join(w, sep) + extra
+						case 1:
+							return extra + strings.Join(w, sep)
+						case 2:
+							return strings.Join(w[:dpos], sep) + sep + extra + strings.Join(w[dpos:], sep)
+						}
+						return strings.Join(w, sep) + extra + extra
+					}
+					gs := &spellGroup{lang: lang, kind: "separator-defect-" + []string{"trailing", "leading", "doubled", "two-trailing"}[shape]}
+					gs.base = defect("NFKD", " ", " ")
+					for _, extra := range []string{"\u3000", "\u00a0", string(g.spaceLike[r.Intn(len(g.spaceLike))])} {
+						gs.variants = append(gs.variants, spellVariant{s: defect("NFKD", " ", extra), form: "NFKD"})
+						f := spellForms[r.Intn(len(spellForms))]
+						gs.variants = append(gs.variants, spellVariant{s: defect(f, seps[r.Intn(2)], extra), form: f})
+					}
+					gs.variants = append(gs.variants, spellVariant{s: defect("NFKC", "\u3000", " "), form: "NFKC"})
+					emit(gs)
 				}
 			}
 		}
